@@ -98,7 +98,9 @@ D_VerifySucceeds(in) ==
 (* call = [ref : "tag"|"digest"|"fullTag"|"fullDigest"|"mismatch",         *)
 (*         meta : "empty"|"disjoint"|"colliding"|"reserved"]               *)
 (* art  = [annotated : BOOLEAN, store : "mem" | "oci" | "ociReopen",       *)
-(*         signerAnn : "none" | "unrelated" | "clashing"]                  *)
+(*         signerAnn : "none" | "unrelated" | "clashing" | "noTime"]       *)
+(*        ("noTime": the signer's signer info states no signing time - the *)
+(*        signature cannot be annotated with one and is not attached)      *)
 (*        store "ociExternal": the layout is opened anew for every call    *)
 (*        and, between calls, another tool moves the tag to another        *)
 (*        artifact of the layout: "resolved" always means what the layout  *)
@@ -127,7 +129,8 @@ SStep(s) ==
          ELSE IF s.call.meta = "colliding" /\ ResolvedAnnotated(s.art, s.call.ref) THEN SRefuse(s, "collides-with-annotation")
          ELSE [s EXCEPT !.toSign = "resolved+meta", !.pc = "sign"]
     [] s.pc = "sign"    -> [s EXCEPT !.signed = s.toSign, !.pc = "annotate"]
-    [] s.pc = "annotate" -> [s EXCEPT !.ann = "thumbprints+time", !.pc = "push"]   \* whatever s.art.signerAnn: generated values win
+    [] s.pc = "annotate" -> IF s.art.signerAnn = "noTime" THEN SRefuse(s, "no-signing-time")
+                            ELSE [s EXCEPT !.ann = "thumbprints+time", !.pc = "push"]   \* whatever else s.art.signerAnn: generated values win
     [] s.pc = "push"    -> [s EXCEPT !.subject = "resolved", !.refs = @ + 1, !.ok = TRUE, !.pc = "done"]
 RECURSIVE SRun(_)
 SRun(s) == IF s.pc = "done" THEN s ELSE SRun(SStep(s))
@@ -138,7 +141,7 @@ SObs(s0, s) == [ok |-> s.ok, signedOK |-> s.ok => s.signed = "resolved+meta", su
                 artSame |-> s.art = s0.art, callerSame |-> s.callerMeta = s0.callerMeta, asked |-> s.asked]
 
 (* a colliding key only collides when the artifact carries that annotation *)
-D_SignSucceeds(art, call) == call.opt \notin BadOpts /\ call.ref # "mismatch" /\ call.meta # "reserved" /\ ~(call.meta = "colliding" /\ ResolvedAnnotated(art, call.ref))
+D_SignSucceeds(art, call) == art.signerAnn # "noTime" /\ call.opt \notin BadOpts /\ call.ref # "mismatch" /\ call.meta # "reserved" /\ ~(call.meta = "colliding" /\ ResolvedAnnotated(art, call.ref))
 
 RECURSIVE SRunCalls(_, _, _, _)
 SRunCalls(art, refs, calls, i) ==
